@@ -151,6 +151,27 @@ func (sc *Scenario) preActions(base int) []any {
 	return out
 }
 
+// what the child flow does to the contact (the probe run does the same itself)
+func (sc *Scenario) childActions(base int) []any {
+	out := []any{}
+	if !sc.Child {
+		return out
+	}
+	if sc.ChildLang >= 0 {
+		out = append(out, map[string]any{"uuid": mkUUID(kAction, base), "type": "set_contact_language", "language": langCodes[sc.ChildLang]})
+	}
+	if sc.ChildName != "" {
+		out = append(out, map[string]any{"uuid": mkUUID(kAction, base+1), "type": "set_contact_name", "name": sc.ChildName})
+	}
+	if sc.ChildAge != "" {
+		out = append(out, map[string]any{"uuid": mkUUID(kAction, base+2), "type": "set_contact_field", "field": map[string]any{"key": "age", "name": "Age"}, "value": sc.ChildAge})
+	}
+	if sc.ChildGender != "" {
+		out = append(out, map[string]any{"uuid": mkUUID(kAction, base+3), "type": "set_contact_field", "field": map[string]any{"key": "gender", "name": "Gender"}, "value": sc.ChildGender})
+	}
+	return out
+}
+
 func (sc *Scenario) flowsJSON() []any {
 	nodes := []any{}
 	if sc.Pre {
@@ -164,7 +185,13 @@ func (sc *Scenario) flowsJSON() []any {
 			}
 			exits = append(exits, e)
 		}
-		nodes = append(nodes, map[string]any{"uuid": nodeP(), "actions": sc.preActions(0), "exits": exits})
+		acts := sc.preActions(0)
+		if sc.Child {
+			// a localized message first (the run works out its localization languages), then the child flow
+			acts = append(acts, map[string]any{"uuid": mkUUID(kAction, 64), "type": "send_msg", "text": "Hello"},
+				map[string]any{"uuid": mkUUID(kAction, 65), "type": "enter_flow", "flow": map[string]any{"uuid": childFlowUUID(), "name": "C07 child"}})
+		}
+		nodes = append(nodes, map[string]any{"uuid": nodeP(), "actions": acts, "exits": exits})
 	}
 	exits := []any{}
 	for _, e := range sc.Exits {
@@ -194,13 +221,19 @@ func (sc *Scenario) flowsJSON() []any {
 	if sc.needsResume() {
 		pnodes = append(pnodes, map[string]any{"uuid": mkUUID(kNode, 4096), "exits": []any{map[string]any{"uuid": mkUUID(kExit, 4097), "destination_uuid": mkUUID(kNode, 4097)}}})
 	}
-	pp := map[string]any{"uuid": mkUUID(kNode, 4097), "actions": sc.preActions(4096), "exits": []any{map[string]any{"uuid": mkUUID(kExit, 4096)}}}
+	pp := map[string]any{"uuid": mkUUID(kNode, 4097), "actions": append(sc.preActions(4096), sc.childActions(4200)...), "exits": []any{map[string]any{"uuid": mkUUID(kExit, 4096)}}}
 	if sc.needsResume() {
 		pp["router"] = sc.routerJSON(true)
 	}
 	pnodes = append(pnodes, pp)
 	probe := map[string]any{"uuid": probeFlowUUID(), "name": "C07 probe", "spec_version": "13.6.1", "language": langCodes[baseLang], "type": "messaging",
 		"localization": map[string]any{}, "nodes": pnodes}
+	if sc.Child {
+		child := map[string]any{"uuid": childFlowUUID(), "name": "C07 child", "spec_version": "13.6.1", "language": langCodes[baseLang], "type": "messaging",
+			"localization": map[string]any{}, "nodes": []any{map[string]any{"uuid": mkUUID(kNode, 8192), "actions": sc.childActions(8192),
+				"exits": []any{map[string]any{"uuid": mkUUID(kExit, 8192)}}}}}
+		return []any{flow, probe, child}
+	}
 	return []any{flow, probe}
 }
 
